@@ -559,8 +559,15 @@ func (obj *Package) Define(creator func(args List) Object, doc *FuncDoc, aux ...
 	if obj.funcs == nil {
 		obj.funcs = map[string]*FuncInfo{}
 	}
-	if _, has := obj.funcs[name]; has {
+	if xfi, has := obj.funcs[name]; has && !xfi.Undefined() {
 		Warn("redefining %s", printer.caseName(name))
+	}
+	if lam := obj.lambdas[name]; lam != nil && len(lam.Forms) == 1 {
+		if _, undef := lam.Forms[0].(Undefined); undef {
+			// Calls compiled before the function existed call the
+			// stand-in made then, it hands the arguments on from now on.
+			lam.Forms = List{&forward{fi: &fi}}
+		}
 	}
 	obj.funcs[name] = &fi
 	for _, pkg := range obj.Users {
